@@ -309,6 +309,59 @@ def rule_K2(chk, eng, cached):
                 chk.ok("K2", (f, call), call, {"callee": hit[0].name, "args_of_unknown_kind": unknown}, sample=n_sites <= 3)
 
 
+def _stateful_class(ci):
+    """A repository class whose instances are keyed by identity and can change after construction: some method other than the
+    constructors stores into an attribute (or into the storage behind an attribute) of its receiver, and the class defines no
+    value equality (NamedTuples / frozen dataclasses / classes with __eq__ are value-keyed and are judged by K5)."""
+    if any(A.text(b_) in ("NamedTuple", "typing.NamedTuple", "tuple") for b_ in ci.node.bases):
+        return None
+    if any("dataclass" in A.text(d) and "frozen=True" in A.text(d) for d in ci.node.decorator_list):
+        return None
+    if "__eq__" in ci.methods or "__hash__" in ci.methods:
+        return None
+    for m in ci.methods.values():
+        if m.name in ("__init__", "__post_init__", "__new__", "__setstate__") or not m.params:
+            continue
+        recv = m.params[0]
+        for n in ast.walk(m.node):
+            tg = []
+            if isinstance(n, ast.Assign):
+                tg = n.targets
+            elif isinstance(n, (ast.AugAssign, ast.AnnAssign)):
+                tg = [n.target]
+            for t in tg:
+                for e in (t.elts if isinstance(t, (ast.Tuple, ast.List)) else [t]):
+                    base = e
+                    while isinstance(base, ast.Subscript):
+                        base = base.value
+                    if isinstance(base, ast.Attribute) and isinstance(base.value, ast.Name) and base.value.id == recv:
+                        return f"{ci.name}.{m.name} writes `{A.short(e, 40)}`"
+    return None
+
+
+def rule_K2b(chk, eng, cached):
+    """lru_cache keys on == / hash of the arguments.  An argument that is an instance of a class with identity hash and in-place
+    API (Tensor, MPS, PEPS ...) makes the key *identity*: after an in-place update of that object (set_block, __setitem__ ...) the
+    same key returns the value computed for the old state."""
+    for f in cached:
+        fa = eng.analyses.get(id(f.node))
+        if fa is None:
+            continue
+        for p_ in f.params:
+            cl = fa.receiver_classes(ast.Name(id=p_, ctx=ast.Load()))
+            if not cl:
+                chk.ok("K2", f, f"{f.name}({p_}): no repository class offers the attributes used on it", sample=False)
+                continue
+            why = [(c_, _stateful_class(c_)) for c_ in cl]
+            if all(w for _, w in why):
+                chk.bad("K2", f, f"{f.name}({p_})", f"memoised function {f.name}() takes `{p_}`, an instance of {'/'.join(sorted({c_.name for c_, _ in why}))} "
+                        f"(inferred from the attributes used on it: {sorted(fa.attr_use.get(p_, set()))[:6]}): such objects hash by identity and are "
+                        f"updated in place ({why[0][1]}), so the cache returns the value computed for the old state after an in-place update of "
+                        f"the very same object")
+            else:
+                chk.ok("K2", f, f"{f.name}({p_}): value-keyed or stateless class", sample=False)
+
+
 def _stmt_of(fa, node):
     if not hasattr(fa, "_parent"):
         fa._parent = A.enclosing_map(fa.node)
@@ -643,6 +696,10 @@ def run(chk):
     chk.extra["functions_analysed"] = len(eng.funcs)
     rule_K1(chk, eng, cached)
     rule_K2(chk, eng, cached)
+    rule_K2b(chk, eng, cached)
+    from .c05 import flag_vector_rule
+    chk.rule("K7", "key components have one encoding: the fermionic flag vector handed to the memoised sign computations is a boolean mask on every path", floor=2)
+    flag_vector_rule(chk, "K7", " -- the vector is part of the lru_cache key and an index tuple (0, 1) compares equal to the mask (False, True): two configurations would share cache entries")
     rule_K3(chk, eng, cached)
     rule_K4(chk, prog, cached)
     rule_K5(chk, prog)
